@@ -108,9 +108,14 @@ impl<X: Term> Visitor for Inner<'_, X> {
         let xname = self.xname;
         let who = || format!("{}/{}", xname, name);
         self.m.pairs += 1;
-        self.m.eq.add(b2s(Term::eq(self.x, y.borrow_term())), &who);
-        self.m.cmp.add(ord(Term::cmp(self.x, y.borrow_term())), &who);
+        let e = Term::eq(self.x, y.borrow_term());
+        let c = Term::cmp(self.x, y.borrow_term());
+        self.m.eq.add(b2s(e), &who);
+        self.m.cmp.add(ord(c), &who);
         self.m.heq.add(b2s(self.hx == h(&y)), &who);
+        // the same two values with the roles exchanged: eq symmetric, cmp antisymmetric
+        self.m.sym.add(b2s(Term::eq(&y, self.x.borrow_term()) == e), &who);
+        self.m.swap.add(b2s(Term::cmp(&y, self.x.borrow_term()) == c.reverse()), &who);
     }
 }
 #[derive(Default)]
@@ -118,6 +123,8 @@ struct Matrix {
     eq: Agg,
     cmp: Agg,
     heq: Agg,
+    sym: Agg,
+    swap: Agg,
     pairs: u64,
 }
 struct Outer<'a> {
@@ -309,8 +316,11 @@ fn recase(r: &mut Rng, a: &T) -> T {
 /// nested atom at any depth) — or equal to it up to tag case
 fn near(g: &TermGen, r: &mut Rng, a: &T) -> T {
     match a {
-        T::Lang(l, t) => match r.below(4) {
+        T::Lang(l, t) => match r.below(6) {
             0 | 1 => T::Lang(l.clone(), randcase(r, t)),
+            // one tag a proper prefix of the other (up to case)
+            4 => T::Lang(l.clone(), randcase(r, &format!("{}-x1", t))),
+            5 => T::Lang(l.clone(), t.split('-').next().unwrap().to_string()),
             2 => T::Lang(r.pick(&g.lexicals).clone(), t.clone()),
             _ => T::Lit(l.clone(), r.pick(&g.datatypes).clone()),
         },
@@ -350,6 +360,8 @@ fn term_gen(ctx: &mut GenCtx) -> TermGen {
     g.datatypes.extend([XSD_BOOLEAN.to_string(), XSD_DOUBLE.to_string()]);
     g.datatypes.extend(tgen::NEAR_MISS_DATATYPES.iter().take(6).map(|s| s.to_string()));
     g.datatypes.push(format!("{}x", RDF_LANGSTRING));
+    // datatypes on both sides of rdf:langString in IRI order (a tagged literal is ordered by that datatype)
+    g.datatypes.extend(["HTML", "XMLLiteral", "JSON", "langStrin", "zzz"].map(|n| format!("http://www.w3.org/1999/02/22-rdf-syntax-ns#{}", n)));
     g.lexicals.extend(
         ["true", "-7", "\u{7f}", "\u{80}", "\u{7ff}", "\u{800}", "\u{ffff}", "1.5", "NaN", "INF", "-INF", "-0", "v", "en", "é\u{301}", "e\u{301}"]
             .map(String::from),
@@ -641,19 +653,24 @@ pub fn exec(line: &str) -> String {
                 return "bad-op".into();
             }
             let (a, b) = (&ts[0], &ts[1]);
-            if !(well_formed(a) && well_formed(b)) {
+            if !(grammar_ok(a) && grammar_ok(b)) {
                 return "skip=not-well-formed".into();
             }
+            // an untagged rdf:langString literal is outside the property's quantifier (the theorems' `WF` guard):
+            // the values are still reported and compared with the model, but nothing is demanded of them
+            let wf = rdf_wf(a) && rdf_wf(b);
             let m = matrix(a, b);
             let s = std_traits(a, b);
             let xk = if tkind(a) != tkind(b) { m.cmp.get() } else { "-".into() };
             let mut out = format!(
-                "eq={} cmp={} heq={} cmpeq={} xk={} pairs={} seq={} scmp={} scmpeq={} sheq={} shx={} spairs={}",
+                "eq={} cmp={} heq={} cmpeq={} xk={} sym={} swap={} pairs={} seq={} scmp={} scmpeq={} sheq={} shx={} spairs={}",
                 m.eq.get(),
                 m.cmp.get(),
                 m.heq.get(),
                 m.cmp.is_eq(),
                 xk,
+                m.sym.get(),
+                m.swap.get(),
                 m.pairs,
                 s.seq.get(),
                 s.scmp.get(),
@@ -662,6 +679,9 @@ pub fn exec(line: &str) -> String {
                 s.shx.get(),
                 s.n
             );
+            if !wf {
+                return out + " nonwf=1";
+            }
             // "never on the Rust type holding it": the answers must not depend on the representation
             let mixed: Vec<&str> = [("eq", &m.eq), ("cmp", &m.cmp), ("seq", &s.seq), ("scmp", &s.scmp)]
                 .iter()
@@ -676,6 +696,12 @@ pub fn exec(line: &str) -> String {
             }
             if s.seq.get() == "1" && s.sheq.get() != "1" {
                 out += " FAIL.std_eq_not_hash=1";
+            }
+            if m.sym.get() != "1" {
+                out += " FAIL.eq_not_symmetric=1";
+            }
+            if m.swap.get() != "1" {
+                out += " FAIL.cmp_not_antisymmetric=1";
             }
             out
         }
@@ -701,9 +727,10 @@ pub fn exec(line: &str) -> String {
             if ts.len() != 3 {
                 return "bad-op".into();
             }
-            if !ts.iter().all(well_formed) {
+            if !ts.iter().all(grammar_ok) {
                 return "skip=not-well-formed".into();
             }
+            let wf = ts.iter().all(rdf_wf);
             let mut eq = [['?'; 3]; 3];
             let mut cmp = [['?'; 3]; 3];
             let mut heq = [['?'; 3]; 3];
@@ -724,7 +751,10 @@ pub fn exec(line: &str) -> String {
             let flat = |m: &[[char; 3]; 3]| m.iter().flat_map(|r| r.iter()).collect::<String>();
             let fails = laws(&eq, &cmp, &heq);
             let mut out = format!("meq={} mcmp={} mheq={}", flat(&eq), flat(&cmp), flat(&heq));
-            if fails.is_empty() {
+            if !wf {
+                // outside the quantifier: which laws the ill-formed terms break is reported, not demanded
+                out += &format!(" laws=nonwf broken={}", if fails.is_empty() { "-".to_string() } else { fails.join(",") });
+            } else if fails.is_empty() {
                 out += " laws=ok";
             } else {
                 out += &format!(" laws=bad FAIL.laws={}", fails.join(","));
